@@ -74,8 +74,10 @@ VM_RESET = dict(X86, main="src/virtual_machine.cpp", keep=["randomx_vm::resetRou
 VM_INIT = {"main": "src/virtual_machine.cpp", "keep": ["randomx_vm::initialize", "getSmallPositiveFloatBits", "getStaticExponent", "getFloatMask", "Program::getEntropy"]}
 
 STR_NE = [{"name": "std::string != -> abstract identity comparison", "pattern": r"machine->cacheKey != cache->cacheKey", "repl": "!rxv_string_eq(&machine->cacheKey, &cache->cacheKey)"}]
-RX_SET_CACHE = {"main": "src/randomx.cpp", "keep": ["randomx_vm_set_cache", "randomx_vm::getMemory", "randomx_vm::usesCache"], "pre_rewrites": STR_NE,
-                "must_fire": {"recipe rewrite: std::string != -> abstract identity comparison": 1}}
+STR_CMP_STR = [{"name": "std::string::compare(pos, len, string) -> rxv_string_compare_str", "pattern": r"\b((?:\w+->)*cacheKey)\.compare\(([^,()]+),\s*([^,]+?),\s*((?:\w+->)*cacheKey)\)", "repl": r"rxv_string_compare_str(&\1, \2, \3, &\4)"},
+               {"name": "std::string observers -> rxv_string observers", "pattern": r"\b((?:\w+->)*cacheKey)\.(size|length|data|c_str)\(\)", "repl": r"rxv_string_\2(&\1)"}]
+RX_SET_CACHE = {"main": "src/randomx.cpp", "keep": ["randomx_vm_set_cache", "randomx_vm::getMemory", "randomx_vm::usesCache"], "pre_rewrites": STR_NE + STR_CMP_STR,
+                "must_fire": {}}
 
 VM_ALLOCATE = {"main": "src/virtual_machine.cpp", "keep": ["VmBase::allocate", "rx_load_vec_i128", "rx_store_vec_i128"],
                "flatten": {"root": "randomx_vm", "concrete": "VmBase", "chain": ["randomx_vm", "VmBase"]},
